@@ -16,6 +16,12 @@ Section Zip.
     match a, b, c with x :: a', y :: b', z :: c' => f x y z :: kzip3 f a' b' c' | _, _, _ => [] end.
   Fixpoint kzip4 (f : A -> B -> C -> D -> E) (a : list A) (b : list B) (c : list C) (d : list D) : list E :=
     match a, b, c, d with x :: a', y :: b', z :: c', w :: d' => f x y z w :: kzip4 f a' b' c' d' | _, _, _, _ => [] end.
+  Context {D2 : Type}.
+  Fixpoint kzip5 (f : A -> B -> C -> D -> D2 -> E) (a : list A) (b : list B) (c : list C) (d : list D) (d2 : list D2) : list E :=
+    match a, b, c, d, d2 with
+    | x :: a', y :: b', z :: c', w :: d', v :: d2' => f x y z w v :: kzip5 f a' b' c' d' d2'
+    | _, _, _, _, _ => []
+    end.
 End Zip.
 
 (* lax.scan(f, init, xs, reverse=True): the carry runs from the last element to the first; outputs keep the input order *)
